@@ -195,34 +195,11 @@ func (it *symstrIter) next() tuple {
 		okv[0] = false
 		return okv
 	}
-	c := it.cells[it.i]
 	okv[0] = true
 	okv[1] = it.i
-	if cb, ok := c.(byte); ok && cb < 0x80 {
-		okv[2] = rune(cb)
-		it.i++
-		return okv
-	}
-	if sc, ok := c.(sym); ok {
-		if ex.decide(sym{t: fmt.Sprintf("(bvult %s #x80)", sc.t)}) {
-			okv[2] = sym{fmt.Sprintf("((_ zero_extend 24) %s)", sc.t), 32, true}
-			it.i++
-			return okv
-		}
-		panic(abortPath{"unsupported: non-ASCII symbolic byte in range-over-string (prototype)"})
-	}
-	// concrete multibyte: decode from concrete run
-	var b []byte
-	for j := it.i; j < len(it.cells) && j < it.i+4; j++ {
-		if cb, ok := it.cells[j].(byte); ok {
-			b = append(b, cb)
-		} else {
-			break
-		}
-	}
-	r := []rune(string(b))
-	okv[2] = r[0]
-	it.i += len(string(r[0]))
+	r, n := symDecodeRune(it.cells, it.i)
+	okv[2] = r
+	it.i += n
 	return okv
 }
 
